@@ -22,7 +22,7 @@ MANIFEST_INFO = {
     "engine": "E",
     "design_ref": "DESIGN.md section 5, C19",
     "technique": "bounded-exhaustive enumeration of all suite trees up to a node bound (6 suite kinds incl. testtools' FixtureSuite x 4 leaf labels, duplicates included) x all 16 id subsets, checked against a list-of-leaves reference model; testtools.run --list/--load-list driven in-process on a synthetic module for every small tree",
-    "level_text": "Every ordered tree with at most 5 (quick) / 6 (thorough) nodes over plain TestSuite, a custom subclass, one with sort_tests, one with an in-place filter_by_ids, one whose filter_by_ids returns a new suite and testtools' own FixtureSuite (each possibly empty), with PlaceHolder and real TestCase leaves over ids {a,b,c} (duplicates occur), is built afresh and passed to iterate_tests, to filter_by_ids for every subset of {a,b,c,z} (order, identity and the chain of enclosing suite objects of every surviving leaf are compared), and to sorted_tests (ValueError iff duplicate ids, otherwise the documented order). For every tree of at most 4 (quick) / 5 (thorough) nodes the two compositions sort-then-filter (what testtools.run discover --load-list does) and filter-then-sort are checked for every subset. For every tree of at most 4 nodes, testtools.run --list and --load-list (every subset, via a scratch file) are run in-process.",
+    "level_text": "Every ordered tree with at most 5 (quick) / 6 (thorough) nodes over plain TestSuite, a custom subclass, one with sort_tests, one with an in-place filter_by_ids, one whose filter_by_ids returns a new suite and testtools' own FixtureSuite (each possibly empty), with PlaceHolder and real TestCase leaves over ids {a,b,c} (duplicates occur), is built afresh and passed to iterate_tests, to filter_by_ids for every subset of {a,b,c,z} (order, identity and the chain of enclosing suite objects of every surviving leaf are compared; the caller then adds a test of its own to every empty suite the call created, which no later call may see), and to sorted_tests (ValueError iff duplicate ids, otherwise the documented order). For every tree of at most 4 (quick) / 5 (thorough) nodes the two compositions sort-then-filter (what testtools.run discover --load-list does) and filter-then-sort are checked for every subset. For every tree of at most 4 nodes, testtools.run --list and --load-list (every subset, via a scratch file) are run in-process.",
     "level_note": "The reference model is a recursive list of leaves; custom filter_by_ids is a correct in-place implementation; the position of empty custom suites in sorted_tests output is not constrained (they hold no tests).",
 }
 
@@ -193,17 +193,44 @@ def leaf_ids(tree):
     return out
 
 
+SENTINEL = LoggingPlaceHolder("sentinel-added-by-the-caller")
+
+
+def _suites_of(obj, acc):
+    try:
+        it = list(iter(obj))
+    except TypeError:
+        return acc
+    acc.append(obj)
+    for c in it:
+        _suites_of(c, acc)
+    return acc
+
+
+def use_replacements(out, originals):
+    """The caller puts a test of its own into every empty suite filter_by_ids created (the
+    docstring promises a NEW TestSuite for a deselected test): later calls must not see it."""
+    for s in _suites_of(out, []):
+        if type(s) is unittest.TestSuite and id(s) not in originals and s.countTestCases() == 0:
+            s.addTest(SENTINEL)
+
+
+def _tid(t):
+    return t.id() if hasattr(t, "id") else repr(t)
+
+
 def check_tree(tree, res, with_run, with_comp=True):
     problems = []
     # iterate_tests
     obj, leaves = build(tree)
     got = list(iterate_tests(obj))
     if [id(x) for x in got] != [id(l[0]) for l in leaves]:
-        problems.append(("iterate", "iterate_tests yielded %r, leaves are %r" % ([t.id() for t in got], [l[1] for l in leaves])))
+        problems.append(("iterate", "iterate_tests yielded %r, leaves are %r" % ([_tid(t) for t in got], [l[1] for l in leaves])))
     res.evaluations += 1
     # filter_by_ids for every subset
     for S in SUBSETS:
         obj, leaves = build(tree)
+        originals = {id(x) for x in _suites_of(obj, [])}
         try:
             out = filter_by_ids(obj, S)
         except Exception as e:
@@ -212,8 +239,9 @@ def check_tree(tree, res, with_run, with_comp=True):
         res.evaluations += 1
         want = [(l[0], l[2]) for l in leaves if l[1] in S]
         have = chains_of(out)
+        use_replacements(out, originals)
         if [id(x[0]) for x in have] != [id(x[0]) for x in want]:
-            problems.append(("filter", "filter_by_ids(%r) left %r, expected %r" % (sorted(S), [x[0].id() for x in have], [x[0].id() for x in want])))
+            problems.append(("filter", "filter_by_ids(%r) left %r, expected %r" % (sorted(S), [_tid(x[0]) for x in have], [_tid(x[0]) for x in want])))
         else:
             for (leaf, chain), (_, wchain) in zip(have, want):
                 if [id(getattr(c, "_vt_origin", c)) for c in chain] != [id(c) for c in wchain]:
@@ -225,7 +253,7 @@ def check_tree(tree, res, with_run, with_comp=True):
     dup = len(set(ids)) != len(ids)
     try:
         out = sorted_tests(obj)
-        outcome = ("ok", [t.id() for t in iterate_tests(out)], [id(t) for t in iterate_tests(out)])
+        outcome = ("ok", [_tid(t) for t in iterate_tests(out)], [id(t) for t in iterate_tests(out)])
     except ValueError as e:
         outcome = ("ValueError",)
     except Exception as e:
@@ -253,7 +281,7 @@ def check_tree(tree, res, with_run, with_comp=True):
             obj, leaves = build(tree)
             try:
                 out = filter_by_ids(sorted_tests(obj), S)
-                have = [t.id() for t in iterate_tests(out)]
+                have = [_tid(t) for t in iterate_tests(out)]
             except Exception as e:
                 problems.append(("sort-then-filter", "filter_by_ids(sorted_tests(suite), %r) raised %s: %s" % (sorted(S), type(e).__name__, e)))
                 continue
@@ -266,7 +294,7 @@ def check_tree(tree, res, with_run, with_comp=True):
         obj, leaves = build(tree)
         try:
             out = sorted_tests(filter_by_ids(obj, S))
-            have = ("ok", [t.id() for t in iterate_tests(out)])
+            have = ("ok", [_tid(t) for t in iterate_tests(out)])
         except ValueError:
             have = ("ValueError",)
         except Exception as e:
@@ -304,6 +332,8 @@ def run_program(args):
         code = None
     except SystemExit as e:
         code = e.code
+    except Exception as e:
+        code = "raised %s: %s" % (type(e).__name__, e)
     return code, out.getvalue()
 
 
